@@ -92,7 +92,36 @@ def run(n, verif_seed=0, profile="c04", slot_base=800000):
     return tot
 
 
+def check_snippets(out):
+    """Every verbatim snippet must be accepted by gcc without a diagnostic for the -D sets the generator draws."""
+    import itertools
+    import tempfile
+
+    bad = 0
+    vals = {"A": [None, "", "2"], "B": [None, "", "1"], "C": [None, "2"], "V": [None, "1", "0", "2", "0x2", "02", "2U", "2UL"],
+            "W": [None, "1", "0", "2", "02", "2L"]}
+    with tempfile.TemporaryDirectory(dir=core.SCRATCH_BASE) as td:
+        for i, sn in enumerate(gen.RAW_SNIPPETS):
+            src = os.path.join(td, f"s{i}.c")
+            with open(src, "w") as f:
+                f.write("\n".join(l.replace("@", "1") for l in sn) + "\n")
+            for combo in itertools.product(*[[(k, v) for v in vs] for k, vs in vals.items()]):
+                if hash(combo) % 7:      # a seventh of the 2 160 combinations per snippet
+                    continue
+                defs = ["-D" + k + ("=" + v if v not in (None, "1") or k in "ABC" and v == "1" else "") for k, v in combo if v is not None or False]
+                defs = [d for (k, v), d in zip([c for c in combo if c[1] is not None], defs)]
+                pr = subprocess.run(["gcc", "-E", "-P", "-x", "c"] + defs + [src], capture_output=True, text=True)
+                if pr.returncode or pr.stderr.strip():
+                    bad += 1
+                    if bad <= 3:
+                        out(f"[selftest model] snippet {i} rejected by gcc with {defs}: {pr.stderr[:200]}")
+    out(f"[selftest model] verbatim snippets: {len(gen.RAW_SNIPPETS)} snippets, {bad} gcc diagnostics")
+    return bad
+
+
 def main(n, out):
+    if check_snippets(out):
+        return 2
     res = {}
     for prof in ("c04", "c13"):
         res[prof] = run(n, profile=prof)
